@@ -37,7 +37,7 @@ def required_cells(tier):
     return ["alias:compiled-through-file-link", "alias:-I-through-dir-link", "alias:dot-segments-file", "alias:dot-segments-I",
             "alias:include-through-file-link", "alias:once-header-under-two-names", "alias:forced-include",
             "link:unused-to-member", "link:to-outside", "link:to-excluded-member", "names-differing-in-case", "link:extension-of-another-language", "link:to-sibling-with-root-prefix", "alias:root-directory-through-link",
-            "alias:dotdot-after-directory-link", "alias:once-header-forced-twice", "same-file-from-2-commands", "one-tree-per-inode", "cli:tree-links"]
+            "alias:dotdot-after-directory-link", "alias:once-header-forced-twice", "same-file-from-2-commands", "one-tree-per-inode", "cli:tree-links", "overlapping-directories"]
 
 
 def dots(rng, rel):
@@ -274,6 +274,32 @@ def check_case(ctx, case, base, cls, do_cli=False):
         if sm_t != sm_a:
             problems.append({"kind": "setmap-differs-from-twin", "twin": {",".join(sorted(k)): v for k, v in sm_t.items()},
                              "aliased": {",".join(sorted(k)): v for k, v in sm_a.items()}})
+        # the same analysis over a code base whose directories overlap (the root, its src/ directory, the root again
+        # through a link): every file is still listed once and counted once
+        from codebasin import CodeBase, finder, report
+        import io
+        over_dirs = [aroot, os.path.join(aroot, "src"), aroot_given if aroot_given != aroot else os.path.join(aroot, "inc", "..")]
+        cb_o = CodeBase(*over_dirs, exclude_patterns=list(excl))
+        st_o = finder.find(aroot, cb_o, forest.cbi_configuration(ac, ab))
+        acc.hook("find")
+        cells.add("overlapping-directories")
+        names_o = list(cb_o)
+        if len(names_o) != len(set(names_o)) or set(names_o) != set(cb_a):
+            rep = sorted({n for n in names_o if names_o.count(n) > 1})
+            problems.append({"kind": "overlapping directories: a file is listed more than once", "directories": over_dirs,
+                             "repeated": [os.path.relpath(n, aroot) for n in rep[:5]], "listed": len(names_o), "distinct": len(set(names_o)),
+                             "single_root": len(set(cb_a))})
+        sm_o = c10.setmap_of(st_o, cb_o)
+        if sm_o != sm_a:
+            problems.append({"kind": "overlapping directories: lines are counted more than once", "directories": over_dirs,
+                             "single_root": {",".join(sorted(k)): v for k, v in sm_a.items()},
+                             "overlapping": {",".join(sorted(k)): v for k, v in sm_o.items()}})
+        buf = io.StringIO()
+        report.duplicates(cb_o, buf)
+        groups = cli.parse_duplicates(buf.getvalue())
+        if any(len(g) != len(set(g)) for g in groups):
+            problems.append({"kind": "overlapping directories: a file is reported as a duplicate of itself",
+                             "group": [g for g in groups if len(g) != len(set(g))][0][:4]})
         listed = {os.path.relpath(p, os.path.realpath(aroot)) for p in cb_a}
         if "src/outside_link.h" in listed:
             problems.append({"kind": "link-to-outside-enumerated"})
